@@ -104,6 +104,7 @@ func H_C19_http() {
 		},
 	}
 	var body []byte
+	decodes := 0
 	if vInEngine() {
 		body = []byte("{}")
 		vOverride("encoding/json.Unmarshal", func(data []byte, v interface{}) error {
@@ -116,7 +117,6 @@ func H_C19_http() {
 		vOverride("encoding/json.Marshal", func(v interface{}) ([]byte, error) {
 			return []byte("{}"), nil
 		})
-		decodes := 0
 		vOverride("(*encoding/json.Decoder).Decode", func(d *json.Decoder, v interface{}) error {
 			decodes++
 			if readFails {
@@ -178,6 +178,23 @@ func H_C19_http() {
 	vAssert("ok:downlink-rate", vImplies(vAnd(ns.SliceQos.DownlinkMbr != 0, dlFits), s.downlinkMbr == dlProd))
 	vAssert("ok:bursts-as-posted", vAnd(s.ulBurstBytes == ns.SliceQos.UlBurstBytes, s.dlBurstBytes == ns.SliceQos.DlBurstBytes))
 	vAssert("ok:remembered", u.sliceInfo != nil)
+
+	// the control plane posts the slice again - same name, same rates, other burst
+	// sizes (or the very same document): what was posted is programmed again
+	ns.SliceQos.UlBurstBytes, ns.SliceQos.DlBurstBytes = vU64("ul_burst_2"), vU64("dl_burst_2")
+	decodes = 0
+	if !vInEngine() {
+		body, _ = json.Marshal(ns)
+	}
+	w2 := &vRespWriter{}
+	h.ServeHTTP(w2, &http.Request{Method: method, Body: &vBody{data: body}})
+	vAssert("again:single-201", vAnd(len(w2.headerCalls) == 1, w2.headerCalls[0] == 201))
+	vAssert("again:datapath-programmed-again", dp.sliceCalls == 2)
+	if dp.sliceCalls == 2 {
+		s2 := dp.slices[1]
+		vAssert("again:bursts-as-posted", vAnd(s2.ulBurstBytes == ns.SliceQos.UlBurstBytes, s2.dlBurstBytes == ns.SliceQos.DlBurstBytes))
+	}
+	vCover("posted-again")
 }
 
 // H_C19_bess: the BESS slice meter programmed from a SliceInfo.
